@@ -172,6 +172,9 @@ Fixpoint notry (s : stmt expr) : bool :=
   | SFor _ _ _ b => nl b
   | SLabelled _ s => notry s
   | STry _ _ _ => false
+  | SSwitch _ cs =>
+      (fix nc (cs : list (option expr * list (stmt expr))) : bool :=
+         match cs with [] => true | (_, b) :: cs' => nl b && nc cs' end) cs
   end.
 Definition notry_list (l : list (stmt expr)) : bool := forallb notry l.
 Lemma notry_block l : notry (SBlock l) = notry_list l.
@@ -183,6 +186,42 @@ Lemma notry_dowhile e l : notry (SDoWhile l e) = notry_list l.
 Proof. simpl. induction l as [|x xs IH]; simpl; [reflexivity|]. now rewrite IH. Qed.
 Lemma notry_for i t u l : notry (SFor i t u l) = notry_list l.
 Proof. simpl. induction l as [|x xs IH]; simpl; [reflexivity|]. now rewrite IH. Qed.
+
+Lemma notry_switch e cs : notry (SSwitch e cs) = notry_list (bodies cs).
+Proof.
+  assert (H : forall l, (fix nl (l : list (stmt expr)) : bool :=
+    match l with [] => true | x :: xs => notry x && nl xs end) l = notry_list l).
+  { induction l as [|x xs IH]; simpl; [reflexivity|]. now rewrite IH. }
+  simpl. unfold bodies, notry_list. induction cs as [|[c b] cs IH]; simpl; [reflexivity|].
+  rewrite forallb_app, H, IH. reflexivity.
+Qed.
+Lemma notry_list_skipn cs i : notry_list (bodies cs) = true -> notry_list (body_from cs i) = true.
+Proof.
+  unfold body_from. revert i. induction cs as [|[c b] cs IH]; intros i H; destruct i; cbn [skipn]; try assumption.
+  apply IH. unfold bodies, notry_list in *. simpl in H. rewrite forallb_app in H.
+  apply andb_true_iff in H. tauto.
+Qed.
+
+(* clause selection: lock step, or the interrupted side stops inside a case expression *)
+Definition fagree (k : Z) (ra rb : state * (option nat + val)) : Prop :=
+  (pre (fst ra) /\ halt_at (fst ra) = k /\ fst rb = erase (fst ra) /\ snd rb = snd ra)
+  \/ (polls (fst ra) = k /\ snd ra = inr VHalt /\ prefix (out (fst ra)) (out (fst rb))).
+Lemma find_case_sync cs v : forall a i k, pre a -> halt_at a = k ->
+  fagree k (find_case eval val_seq cs v a i) (find_case eval val_seq cs v (erase a) i).
+Proof.
+  induction cs as [|[[e|] b] cs IH]; intros a i k Hp Hk; cbn [find_case].
+  - left. cbn [fst snd]. split; [exact Hp|split; [exact Hk|split; reflexivity]].
+  - pose proof (eval_sync e a k Hp Hk) as H1.
+    destruct (eval a e) as [a1 r1]; destruct (eval (erase a) e) as [b1 r1'].
+    destruct H1 as [(Hq & Hk1 & Hb1 & Hr)|(Hq & Hr & Hpf)]; cbn [fst snd] in *.
+    + subst b1 r1'. destruct r1 as [w|x]; [|left; cbn [fst snd]; split; [exact Hq|split; [exact Hk1|split; reflexivity]]].
+      destruct (val_seq v w); [left; cbn [fst snd]; split; [exact Hq|split; [exact Hk1|split; reflexivity]]|apply IH; assumption].
+    + subst r1. right. cbn [fst snd]. repeat split; auto.
+      destruct r1' as [w|x]; [|exact Hpf].
+      destruct (val_seq v w); [exact Hpf|].
+      eapply prefix_of_extends; [exact Hpf|]. apply find_case_extends.
+  - apply IH; assumption.
+Qed.
 
 Definition sagree (k : Z) (ra rb : st3) : Prop :=
   (pre (fst (fst ra)) /\ halt_at (fst (fst ra)) = k /\ fst (fst rb) = erase (fst (fst ra)) /\
@@ -496,7 +535,7 @@ Proof.
   set (a1 := bump a) in *.
   assert (Hok : forall y, notry y = true -> exec_ok (exec_o fuel) y).
   { intros y Hy a' L' k' Hp' Hk'. apply IH; assumption. }
-  destruct x as [e|l|e s1 s2|e body|body e|init test upd body|l|l|e|l x|e|b c f].
+  destruct x as [e|l|e s1 s2|e body|body e|init test upd body|l|l|e|l x|e|b c f|e cases].
   - pose proof (eval_sync e a1 k Hp1 Hk1) as H1.
     destruct (eval a1 e) as [a2 r2]; destruct (eval (erase a1) e) as [b2 r2'].
     destruct H1 as [(Hq & Hk2 & Hb & Hr)|(Hq & Hr & Hpf)]; cbn [fst snd] in *.
@@ -561,6 +600,31 @@ Proof.
     + subst b2 r2'. destruct r2; sfin Hq Hk2.
     + subst r2. right. cbn [fst snd]. repeat split; auto. destruct r2'; exact Hpf.
   - discriminate Hnt.
+  - (* switch *)
+    rewrite notry_switch in Hnt.
+    pose proof (eval_sync e a1 k Hp1 Hk1) as H1.
+    destruct (eval a1 e) as [a2 r2]; destruct (eval (erase a1) e) as [b2 r2'].
+    destruct H1 as [(Hq & Hk2 & Hb & Hr)|(Hq & Hr & Hpf)]; cbn [fst snd] in *.
+    + subst b2 r2'. destruct r2 as [v|x']; [|sfin Hq Hk2].
+      pose proof (find_case_sync cases v a2 0%nat k Hq Hk2) as H2.
+      destruct (find_case eval val_seq cases v a2 0) as [a3 r3]; destruct (find_case eval val_seq cases v (erase a2) 0) as [b3 r3'].
+      destruct H2 as [(Hq3 & Hk3 & Hb3 & Hr3)|(Hq3 & Hr3 & Hpf3)]; cbn [fst snd] in *.
+      * subst b3 r3'. destruct r3 as [r|x']; [|sfin Hq3 Hk3].
+        destruct (switch_target cases r) as [i|]; [|sfin Hq3 Hk3].
+        apply (oblock_sync _ (exec_extends fuel)); auto.
+        intros y Hy. apply Hok. eapply notry_list_In; [apply notry_list_skipn; exact Hnt|exact Hy].
+      * subst r3. right. cbn [fst snd]. repeat split; auto.
+        destruct r3' as [r|x']; [|exact Hpf3].
+        destruct (switch_target cases r) as [i|]; [|exact Hpf3].
+        eapply prefix_of_extends; [exact Hpf3|]. apply (oblock_extends _ (exec_extends fuel)).
+    + subst r2. right. cbn [fst snd]. repeat split; auto.
+      destruct r2' as [v|x']; [|exact Hpf].
+      pose proof (find_case_extends cases v b2 0%nat) as He.
+      destruct (find_case eval val_seq cases v b2 0) as [b3 [r|x']]; cbn [fst] in *;
+        [|eapply prefix_of_extends; eassumption].
+      destruct (switch_target cases r) as [i|]; [|eapply prefix_of_extends; eassumption].
+      eapply prefix_of_extends; [eapply prefix_of_extends; [exact Hpf|exact He]|].
+      apply (oblock_extends _ (exec_extends fuel)).
 Qed.
 
 (* ---------- whole programs ---------- *)
